@@ -712,7 +712,10 @@ impl AssemblyCode {
                         | AsmMnemonic::EOR
                         | AsmMnemonic::AND
                         | AsmMnemonic::ORA => accumulator = None,
-                        AsmMnemonic::LSR | AsmMnemonic::ASL => accumulator = None,
+                        AsmMnemonic::LSR
+                        | AsmMnemonic::ASL
+                        | AsmMnemonic::ROL
+                        | AsmMnemonic::ROR => accumulator = None,
                         AsmMnemonic::PLA | AsmMnemonic::PHA => accumulator = None,
                         AsmMnemonic::JSR | AsmMnemonic::JMP => {
                             accumulator = None;
@@ -722,6 +725,33 @@ impl AssemblyCode {
                         AsmMnemonic::CPX | AsmMnemonic::CPY | AsmMnemonic::CMP => {
                             flags = FlagsState::Unknown;
                         }
+                        _ => (),
+                    }
+                    // Besides the loads handled above, every instruction that writes N and Z
+                    // makes the recorded flag state stale
+                    match inst.mnemonic {
+                        AsmMnemonic::INC
+                        | AsmMnemonic::DEC
+                        | AsmMnemonic::INX
+                        | AsmMnemonic::DEX
+                        | AsmMnemonic::INY
+                        | AsmMnemonic::DEY
+                        | AsmMnemonic::TAX
+                        | AsmMnemonic::TAY
+                        | AsmMnemonic::TXA
+                        | AsmMnemonic::TYA
+                        | AsmMnemonic::ADC
+                        | AsmMnemonic::SBC
+                        | AsmMnemonic::EOR
+                        | AsmMnemonic::AND
+                        | AsmMnemonic::ORA
+                        | AsmMnemonic::LSR
+                        | AsmMnemonic::ASL
+                        | AsmMnemonic::ROL
+                        | AsmMnemonic::ROR
+                        | AsmMnemonic::PLA
+                        | AsmMnemonic::PLP
+                        | AsmMnemonic::JSR => flags = FlagsState::Unknown,
                         _ => (),
                     }
                 } else {
